@@ -5,7 +5,8 @@ PROPS = {
         "suites": [("comp_codec", "gen_eq_cases")],
         "rule": "every message kind x optional-attribute subsets x child lists (exhaustive 0..2/3 children over a 2x2 alphabet, one longer list) x "
                 "every single-point perturbation (attribute changed/dropped/added, text changed, child i changed/dropped/duplicated/swapped/appended, kind changed) "
-                "and rebuilt copies, plus random deeper cases; a pair is non-trivial and distinct by its two wire views",
+                "and rebuilt copies, plus random deeper cases; long values (65-5000 characters) differing late at equal length in child text, child attributes and message attributes; "
+                "a pair is non-trivial and distinct by its two wire views",
         "trusted_base": ["Python object -> wire view (harness.msg_view)"],
         "assumptions": ["messages are instances of registered classes built through their constructors (Msg.Built)"],
     },
@@ -16,7 +17,7 @@ PROPS["C13"] = {
     "rule": "every message kind: valid element, each attribute absent / replaced by each hostile value (wrong case, foreign vocabulary, Python-internal looking, "
             "arbitrary) and by every vocabulary constant; message text perturbed; odd attribute names (self, children, value, ...); children of every part kind, "
             "child text perturbed with hostile and number-like strings, child attributes dropped; unknown tags; plus random XML through expat; "
-            "a case is distinct by the element handed to from_xml",
+            "a case is distinct by the element handed to from_xml; characters that are digits for str.isdigit() but not for \\d",
     "trusted_base": ["xml.etree/expat produce the element the model is given (the model starts at from_xml)", "Python object -> wire view (harness.msg_view)"],
     "assumptions": ["Conformant (Spec/Msg.lean) is my reading of the INDI vocabulary: vocabulary-valued fields must be present and members; absent number text is allowed"],
 }
@@ -25,7 +26,7 @@ PROPS["C04"] = {
     "suites": [("comp_router", "gen_c04"), ("comp_router", "gen_reentrant")],
     "rule": "every subset (thorough: and order) of the devices {A, B, catch-all} x 0..3 registered clients; per state a sweep of every client-originated kind x device name "
             "{A, B, none, unknown} x every sender (nobody, each client, each device), enableBLOB from every sender incl. an unregistered one for every name and policy, "
-            "unregister + resend; plus random histories up to 200 operations over 5 devices / 5 clients; a history is distinct by its operation list",
+            "unregister + resend; plus random histories up to 200 operations over 5 devices / 5 clients; a history is distinct by its operation list; re-entrant endpoints (scripted reactions sent from inside the handler) and the library's SnoopingClient among the clients",
     "exhaustive": False,
     "trusted_base": ["recording endpoints: Driver / Proxy subclasses with the real accepts()"],
     "assumptions": ["endpoints do not re-enter the router while a message is being fanned out (recording endpoints)"],
@@ -34,7 +35,7 @@ PROPS["C05"] = {
     "suites": [("comp_router", "gen_c05"), ("comp_router", "gen_reentrant")],
     "rule": "1..3 clients x policy assignments {unset, Never, Also, Only}^3 for device A (quick: 24 sampled assignments) x second device/whole-server policies; per state a sweep "
             "of every device-originated kind (incl. setBLOBVector, getProperties relay) x device name x sender; change of mind, unregister, enableBLOB while unregistered, re-register; "
-            "plus random histories up to 200 operations; a history is distinct by its operation list",
+            "plus random histories up to 200 operations; a history is distinct by its operation list; re-entrant endpoints whose nested messages differ in BLOB-ness and direction from the outer one",
     "trusted_base": ["recording endpoints"],
     "assumptions": ["endpoints do not re-enter the router while a message is being fanned out (recording endpoints)"],
 }
@@ -43,7 +44,7 @@ PROPS["C09"] = {
     "suites": [("comp_switch", "gen_cases")],
     "rule": "3 rules x 1..4 (thorough: 5) switches x every initial configuration x every single operation (assignment On/Off via value or bool_value, client write naming one, "
             "two (every ordered pair, every value pair), all, none or an unknown switch, selected_value(s) of one, two, all, none) each on a fresh real Driver, so every transition of the "
-            "reachable state graph is compared; plus random operation sequences; distinct by (rule, state before, operation)",
+            "reachable state graph is compared; plus random operation sequences; distinct by (rule, state before, operation); every state a Write/Change handler can observe during an operation; client writes refused by a vetoing Write handler",
     "exhaustive": True,
     "trusted_base": ["published messages observed through a recording router client"],
     "assumptions": [],
@@ -54,7 +55,7 @@ PROPS["C02"] = {
     "rule": "one message of every kind in two sizes, text with > < & quotes non-ASCII ]]> in 6 XML spellings (library to_string, compact, indented, single quotes + reversed attributes, "
             "explicit empty elements + raw '>' in text + declaration in single quotes, attributes on separate lines + CRLF); per stream all 1-cut partitions, all 2-cut partitions when "
             "short (sampled otherwise), character-by-character, whole; thresholds {exactly fitting, one below (outside the hypothesis), 2048, disabled}; sequences of 2-5 messages with random "
-            "k-cuts and cuts at/around every message boundary; distinct by (threshold, partition)",
+            "k-cuts and cuts at/around every message boundary; distinct by (threshold, partition); vectors without children; message sizes around every integer constant found in the framing/transport source (threshold disabled, stream described by lengths); the same streams through the buffer model with the character-level model parser",
     "trusted_base": ["the parser parameter of the model is the table of substrings the real parser accepts (tools/comp_buf.build_table)"],
     "assumptions": ["(A1) whatever parses contains the opener of a registered tag; spellings without CDATA/comments containing openers"],
 }
@@ -62,7 +63,7 @@ PROPS["C11"] = {
     "suites": [("comp_buf", "gen_c11"), ("comp_xml", "gen_session")],
     "rule": "valid messages truncated at every position followed by valid traffic; junk assembled from protocol fragments (known/unknown openers and closers, attributes, quotes, "
             "< > &, comments, CDATA, declarations, NUL, Latin-1, entity references) interleaved with valid and truncated messages and random bytes; long junk beyond every threshold "
-            "then valid messages; x random fragmentations x thresholds {16, 128, 2048, disabled}; watchdog on every process(); distinct by (threshold, partition)",
+            "then valid messages; x random fragmentations x thresholds {16, 128, 2048, disabled}; watchdog on every process(); distinct by (threshold, partition); the same streams through the buffer model with the character-level model parser (no table)",
     "trusted_base": ["table parser as for C02", "step/time watchdog (10 s, 10000 callbacks) stands for 'terminates' on the implementation side"],
     "assumptions": ["resynchronisation is proved for a corrupt prefix in the sense of Spec.Buf2.Corrupt (nothing starting inside it is ever a complete XML document) followed by a valid "
                     "stream longer than the threshold; junk that completes into well-formed XML across the boundary is compared with the model only"],
@@ -91,14 +92,14 @@ PROPS["C12"] = {
     "suites": [("comp_dev", "gen_c12"), ("comp_router", "gen_c04"), ("comp_conn", "gen_hostile")],
     "rule": "driver level: the fault catalogue (unknown device/property/element, every vector kind mismatch incl. light targets, invalid switch/number/base64 text, wrong/missing/odd BLOB "
             "sizes, no children, duplicate children, valid+invalid+valid children, message kinds a client should not send) against one property of every kind, each fault between valid "
-            "messages of a session, with and without handlers; plus random definitions with 70% hostile traffic; distinct by (device state, operation list)",
+            "messages of a session, with and without handlers; plus random definitions with 70% hostile traffic; distinct by (device state, operation list); BLOB format strings incl. the compressed-payload suffix .z; odd getProperties versions and other free-text attributes at the connection level",
     "trusted_base": ["messages rejected by the message constructors never reach a driver (they are the conn component's subject)"],
     "assumptions": ["driver definitions are well-formed (Spec.Dev.WF: valid states/permissions/rules, number formats of C10's family, distinct property names)"],
 }
 PROPS["C14"] = {
     "suites": [("comp_dev", "gen_c14"), ("comp_nested", "gen_cases"), ("comp_nested", "gen_two_instances")],
     "rule": "handler configurations 0-2 Write and 0-2 Change handlers per element, plain and coroutine, vetoing or not, on elements of every kind; write sequences with changing and "
-            "unchanged values via client message, set_value() and direct assignment, on enabled and disabled properties; distinct by (device state, operation list)",
+            "unchanged values via client message, set_value() and direct assignment, on enabled and disabled properties; distinct by (device state, operation list); handlers that assign from inside a Change handler (own element or sibling, all element kinds); @on-declared handlers of a driver class instantiated 1-3 times",
     "trusted_base": ["instrumented handlers record (id, event, payload, element._value); coroutine handlers run on a real asyncio loop after the operation"],
     "assumptions": ["what a coroutine handler sees when it eventually runs is not part of the contract; Read handlers are modelled by their effect (refresh) only"],
 }
@@ -114,7 +115,7 @@ PROPS["C16"] = {
     "suites": [("comp_cli", "gen_c16"), ("comp_nested", "gen_inflight")],
     "rule": "streams as in C15 interleaved with onevent/rmonevent (by id, by any subset of criteria incl. callback identity with bound methods, remove-all) at arbitrary points; callbacks plain, "
             "coroutine, raising; exhaustive filter combinations {absent, matching, non-matching}^3 x 4 event types on a fixed stream; a catch-all callback's log feeds the chain oracle; "
-            "distinct by operation list",
+            "distinct by operation list; callbacks of every kind (plain/coroutine x raising or not) in every registration order; a callback removing a later-registered callback while an event is in flight",
     "trusted_base": ["callbacks are bound methods of recorder objects; coroutine callbacks run on a real asyncio loop"],
     "assumptions": ["removal happens between messages, not from inside a callback (the quantifier's reading)"],
 }
@@ -122,7 +123,7 @@ PROPS["C17"] = {
     "suites": [("comp_wait", "gen_cases")],
     "rule": "virtual-time grid 1..9: one batch at every instant (matching, non-matching, mixed batches of up to 4 events) x timeout {none, 3, 6} (ties with the timeout instant excluded) x "
             "polling {off, (1,2), (2,3), (3,1)} x condition kind {check, expect, initial} x event kind {value, state}; random multi-batch streams with 1-3 concurrent waits; concurrent "
-            "waits released by the same event; distinct by (kinds, configuration, batches, number of waits)",
+            "waits released by the same event; distinct by (kinds, configuration, batches, number of waits); several concurrently polling waits on the same property (their getProperties must be the merge of their own schedules)",
     "trusted_base": ["tools/vloop.py: SelectorEventLoop subclass with a virtual clock; timers due at the same instant fire in creation order; event batches are call_at callbacks created before the waits"],
     "assumptions": ["asyncio's Event/task/timer semantics as recorded in DESIGN.md section 5 (L2g): modelled, tied by running the real coroutine on the virtual loop"],
 }
@@ -130,7 +131,7 @@ PROPS["C19"] = {
     "suites": [("comp_send", "gen_cases")],
     "rule": "exhaustive: every schedule (sequence over {route next message, complete the oldest pending I/O of connection i}) up to length 6-8 with at most 4 routed messages, for one TCP "
             "server connection, the TTY channel, the client connection, and pairs; random: bursts of 1-5 messages to 1-3 connections of mixed transports with one connection possibly "
-            "never completing; after each action the loop runs until idle; distinct by (connections, schedule)",
+            "never completing; after each action the loop runs until idle; distinct by (connections, schedule); after every schedule all outstanding I/O is completed and everything routed must have left",
     "exhaustive": True,
     "trusted_base": ["fake StreamWriter (write appends, drain completes on command) and fake aiofiles stdout (a write takes effect when its job is released): tools/comp_send.py"],
     "assumptions": ["asyncio task FIFO start order and Lock FIFO fairness (modelled, tied by running the real handlers); real sockets and the real thread pool are not exercised"],
@@ -140,7 +141,7 @@ PROPS["C18"] = {
     "rule": "session scripts of 2-3 concurrent connections on both server transports (TCP handler, TTY handler; handshake, enableBLOB, client writes, device traffic incl. BLOB updates) "
             "x fault {EOF, read error, EOF inside a message, junk then EOF, exception in a device while the connection's message is handled} on every connection at every step index "
             "(quick: half of the positions, sampled), followed by more device traffic and a reconnecting peer; write error on a peer; hostile client messages at several positions; "
-            "distinct by the router-operation rendering of the script",
+            "distinct by the router-operation rendering of the script; a peer resetting its receiving side while the server still reads; a write side failing for good followed by every read-side ending; the whole session also through the connection model (Model/Conn.lean)",
     "trusted_base": ["fake StreamReader/StreamWriter and fake aiofiles stdin/stdout (tools/comp_conn.py)"],
     "assumptions": ["that every way of ending funnels into close()+unregister is handler control flow: tied by the correspondence, not proved; real sockets are not exercised"],
 }
@@ -149,7 +150,7 @@ PROPS["C03"] = {
     "rule": "all 22 message kinds x optional-attribute subsets (thorough: all subsets) x 0,1,2,4 children x attribute and text values over markup characters, both quotes, BMP and astral "
             "code points, inner whitespace, newlines and tabs (attributes also with surrounding whitespace; label equal to name) through the real to_string/from_string, the re-serialisation, "
             "and five foreign spellings (compact, indented, single quotes + reversed attributes, explicit empty elements + raw '>', attributes on separate lines + CRLF); random messages; "
-            "distinct by wire view",
+            "distinct by wire view; character level: ElementTree's writer and expat against the model on library output, foreign spellings, every truncation, every code-point class, grammar-based documents, mutations",
     "trusted_base": ["ElementTree's writer and expat are modelled at the character level (Model/Xml.lean) and tied by the xml correspondence; inputs outside the modelled fragment are answered 'unsupported' and not compared"],
     "assumptions": ["carriage return and leading/trailing whitespace of text values are excluded (the property's own exclusions)"],
 }
@@ -159,7 +160,7 @@ PROPS["C01"] = {
             "and vectors, one driver optionally built through an inheritance chain of depth 2-3) + real Router + real server TCP handlers + fragmenting byte pipes (1024 / 1 byte / random) + "
             "real client handlers + Client (control + BLOB connection) and in-process SnoopingClients; random histories of driver operations (assign, set_value, state, enabling of "
             "vectors and groups) and client operations (assign+submit, handshake); after EVERY operation and quiescence each client mirror is judged against each driver by Spec.Sys.synced, "
-            "and the observed step is checked to be one the Lean deployment model allows (Sys.nextOk); distinct by operations x fragmentation x clients",
+            "and the observed step is checked to be one the Lean deployment model allows (Sys.nextOk); distinct by operations x fragmentation x clients; slow peers (back-pressure) with bursts of operations at every phase of the sender-lock hand-over",
     "trusted_base": ["in-memory pipes and quiescence detection (tools/comp_sys.py); encoders of live drivers and mirrors (comp_dev.enc_device, comp_cli.enc_mirror)"],
     "assumptions": ["operations are separated by quiescence: re-ordering between the control and the BLOB connection is explored within one operation's batch only (model: all interleavings)",
                     "a client that did not enable BLOBs is not sent setBLOBVector (protocol): of a BLOB property it is required to know the definition, not the updates"],
@@ -168,7 +169,7 @@ PROPS["C06"] = {
     "suites": [("comp_sys", "gen_c06"), ("comp_sys", "gen_c06_pending")],
     "rule": "generated multi-device deployments (as for C01, every property enabled) x random (client, device, property, non-empty element subset) targets x values of the element's domain "
             "(texts with markup, quotes, non-ASCII, inner whitespace; numbers in plain decimal and sexagesimal notation with all three separators; both switch states; byte strings) x "
-            "fragmentation {1024, 1, random}; before/after snapshots of EVERY driver judged by Spec.Sys.c06Holds, the writer's mirror by Spec.Sys.synced, the step by Sys.nextOk",
+            "fragmentation {1024, 1, random}; before/after snapshots of EVERY driver judged by Spec.Sys.c06Holds, the writer's mirror by Spec.Sys.synced, the step by Sys.nextOk; values assigned, then traffic changing the same elements (driver, second client), then submit",
     "trusted_base": ["in-memory pipes and quiescence detection (tools/comp_sys.py); encoders of live drivers and mirrors"],
     "assumptions": ["switch elements not named in the write may change under the property's rule (C09 decides how)"],
 }
@@ -178,7 +179,7 @@ PROPS["C08"] = {
             "100 kB and 1 MB), random contents and all 256 byte values, formats {.fits, .x, empty} x fragmentation {1024, 1, random} x clients {network (BLOB connection Only), network with "
             "Also on the control connection, in-process snooping client (Never)} x direction (driver publishes; client uploads), each followed by ordinary traffic that must still arrive; "
             "a watchdog turns a hang into a failure; base64 codec: every 1-byte and 2-byte string, lengths 0..69 and around 1024/1536/2048, every text over a 14-character alphabet up to "
-            "length 4 (thorough 5), malformed paddings, compared with binascii",
+            "length 4 (thorough 5), malformed paddings, compared with binascii; 70-200 kB frames followed at once by more traffic to a slow peer; a driver refilling one BLOB object (same length, longer, shorter, empty)",
     "trusted_base": ["in-memory pipes, quiescence detection and watchdog (tools/comp_sys.py, harness.time_limit)"],
     "assumptions": ["real sockets and the kernel's buffering are not exercised"],
 }
